@@ -61,6 +61,16 @@ func coResume(L *LState) int {
 		L.Push(LString(msg))
 		return 2
 	}
+	if th.Parent != nil { // resumed and not yet suspended again: it is waiting for a coroutine it resumed
+		msg := "can not resume a normal thread"
+		if th.wrapped {
+			L.RaiseError(msg)
+			return 0
+		}
+		L.Push(LFalse)
+		L.Push(LString(msg))
+		return 2
+	}
 	th.Parent = L
 	L.G.CurrentThread = th
 	if !th.isStarted() {
